@@ -59,7 +59,7 @@ def build_history(rng, spool, tier):
     if big:
         # (again no two with the same 32-bit key: over tens of thousands of histories that does happen by chance)
         keys = {xxh.xxh32(u) for u in pool}
-        for i in range(rng.choice([40, 150, 400])):
+        for i in range(rng.choice([40, 150, 400, 1200] if tier == "quick" else [40, 150, 400, 1200, 3000])):
             u = "b%d.%d@verif" % (rng.randint(0, 999999), i)
             if xxh.xxh32(u) not in keys:
                 keys.add(xxh.xxh32(u))
@@ -102,10 +102,32 @@ def build_history(rng, spool, tier):
         for p in order:
             sc.add("get %d /queue" % p)
             ops.append({"k": "get", "peer": p, "kind": "queue", "q": [], "other": p, "t": t})
-    nops = rng.choice([4, 10, 25, 60]) if not big else rng.choice([80, 300])
+    # idlers: connections that are accepted now and say what they want later, while others come and go; the daemon has
+    # room for 64 at a time
+    idle = []
+    if len(peers) == len(PEERS) and rng.random() < 0.15:
+        for h in range(rng.choice([3, 31, 32, 33, 40, 62])):
+            p = rng.choice(PEERS)
+            sc.add("open %d %d" % (p, h))
+            idle.append((h, p))
+        rng.shuffle(idle)
+
+    def speak_up():
+        nonlocal ver
+        h, p = idle.pop()
+        ver += 1
+        uid = rng.choice(pool)
+        dt = int(t) + 60 * rng.randint(1, 3)
+        sc.add("complete %d %s" % (h, sched.hexs(vcal([vevent(uid, ver, dt, True)]).encode())))
+        ops.append({"k": "add", "peer": p, "items": [{"uid": uid, "ver": ver, "dt": dt, "rec": True, "claimed": p}], "t": t})
+        sc.add("dump")
+
+    nops = rng.choice([4, 10, 25, 60]) if not big else rng.choice([80, 300] if len(pool) < 1000 else [300, 500])
     for _ in range(nops):
         r = rng.random()
         peer = rng.choice(peers if len(peers) == len(PEERS) else peers[:3])
+        if idle and rng.random() < 0.3:
+            speak_up()
         if r < 0.45 or (big and r < 0.75):
             evs, items = [], []
             for _ in range(rng.choice([1, 1, 2, 3]) if not big else rng.choice([1, 5, 20])):
@@ -152,10 +174,13 @@ def build_history(rng, spool, tier):
         else:
             t += rng.choice([3.0, 20.0, 70.0, 200.0])
             sc.add("run %.6f" % t)
+    nidle = len(idle)
+    while idle:
+        speak_up()
     t += rng.choice([1.0, 65.0])
     sc.add("run %.6f" % t)
     sc.add("dump")
-    return sc, ops, t, {"now": now, "nops": len(ops), "lowbits": bits, "big": big, "pool": len(pool)}
+    return sc, ops, t, {"now": now, "idlers_at_end": nidle, "nops": len(ops), "lowbits": bits, "big": big, "pool": len(pool)}
 
 
 def parse_ical_reply(text):
@@ -334,7 +359,7 @@ def run_history(root, part, rng, tier):
     try:
         sc, ops, t_end, meta = build_history(rng, spool, tier)
         part.evaluations += 1
-        events, out, err, rc = sched.run_script(root, sc.text(), iter_log=False, timeout=300)
+        events, out, err, rc = sched.run_script(root, sc.text(), iter_log=False, timeout=60)
         if events is None or rc != 0 or not any(e[0] == "END" for e in events):
             head, frames = sched.san_summary(err)
             part.violation("daemon-crash/" + (">".join(frames[:2]) or "rc%s" % rc),
@@ -350,6 +375,11 @@ def run_history(root, part, rng, tier):
         for k, v in stats.items():
             if k != "max_table":
                 part.count(k, v)
+        if "open " in sc.text():
+            held = sc.text().count("\nopen ")
+            part.count("histories_with_idle_connections")
+            if held > 31:
+                part.count("histories_with_more_than_31_connections_at_a_time")
         for b in (16, 64, 256):
             if stats["max_table"] > b:
                 part.count("histories_with_more_than_%d_tasks" % b)
